@@ -155,6 +155,29 @@ def universe(rng, sysr):
                         ve[2].append([[], Q[0], wide])
             for ve in P[1:4]:
                 roots.append([P[0], ve[0]])
+    if sysr == 0 and rng.random() < 0.3:
+        # bundled packages (name "pkg>version>bundled", DerivedFrom): several installed packages ship the same unused
+        # bundled version, others ship different ones; whatever is reported about them (Graph.Error) belongs to the
+        # answer and must not depend on map iteration.  The root is asked many times.
+        hosts = rng.sample(pk, min(len(pk), rng.randrange(2, 5)))
+        inner = [b"xray", b"zed", b"yak"] + [q[0] for q in rng.sample(pk, 2)]
+        same = rng.choice(inner[:3])
+        top = [b"top", [b"1.0.0", [], []]]
+        extra = []
+        for i, H in enumerate([top] + hosts):
+            hv = H[1][0]
+            for bn in set([same] if (i > 0 and rng.random() < 0.8) else []) | set(rng.sample(inner, rng.randrange(0, 3))):
+                bname = H[0] + b">" + hv + b">" + bn
+                bv = rng.choice([b"1.0.0", b"1.0.0", b"2.0.0"])
+                extra.append([bname, [bv, [[3, bn]], []]])
+                H[1][2].append([[], bname, bv])
+            if H is not top:
+                top[1][2].append([[], H[0], hv])
+        for bn in inner[:3]:
+            if rng.random() < 0.6:
+                extra.append([bn, [b"1.0.0", [], []]])
+        pk += [top] + extra
+        roots += [[b"top", b"1.0.0"]] * 8
     for _ in range(rng.randrange(2, 5)):
         p = rng.choice(pk)
         roots.append([p[0], rng.choice(p[1:])[0]])
